@@ -347,8 +347,9 @@ def finish(mod, pid, args, seed, repo, shards, results, t_start, warm_s):
             "violations": int(n_viol),
         }
         os.makedirs(os.path.join(VERIF, "evidence"), exist_ok=True)
+        from .recorder import jsonable
         with open(os.path.join(VERIF, "evidence", pid + ".json"), "w") as f:
-            json.dump(evidence, f, indent=1, sort_keys=False)
+            json.dump(jsonable(evidence), f, indent=1, sort_keys=False, allow_nan=False)
 
     print(f"{pid} tier={tier} seed={seed} verdict={verdict} evaluations={evaluations} "
           f"distinct_nontrivial={len(nontrivial)} blocked={blocked} wall={wall:.1f}s")
